@@ -1037,6 +1037,98 @@ def function_arguments(ctx, res, binary=None, env=None, sanitizer=False):
                 res.disagreements.append(dict(name='C11/directed:justify-width', case=c.info['e'], impl=got, model=exp))
 
 
+# ------------------------------------------------------------------------------ definitions that refer to themselves
+
+RECURSION_SHAPES = [
+    # (position of the self-reference, define lines, expression evaluated)
+    ('direct', ['foo(x) = foo(x)'], 'foo(1)'),
+    ('direct', ['foo = bar', 'bar = foo'], 'foo'),
+    ('direct', ['foo = bar', 'bar = foo'], 'foo(1)'),
+    ('mutual', ['foo(x) = bar(x)', 'bar(y) = foo(y)'], 'foo(1)'),
+    ('mutual', ['foo(x) = bar(x)', 'bar(y) = baz(y)', 'baz(z) = foo(z)'], 'foo(1)'),
+    ('binary', ['foo(x) = 1 + foo(x - 1)'], 'foo(1)'),
+    ('binary', ['foo(x) = foo(x) * 2'], 'foo(1)'),
+    ('unary', ['foo(x) = -foo(x)'], 'foo(1)'),
+    ('unary', ['foo(x) = ! foo(x)'], 'foo(1)'),
+    ('ternary', ['foo(x) = x > 0 ? foo(x) : 1'], 'foo(1)'),
+    ('ternary', ['foo(x) = foo(x) ? 1 : 2'], 'foo(1)'),
+    ('list', ['foo(x) = (foo(x), 1)'], 'foo(1)'),
+    ('sequence', ['foo(x) = (1; foo(x))'], 'foo(1)'),
+    ('lambda', ['foo = x -> foo(x)'], 'foo(1)'),
+    ('call-arg-builtin', ['foo(x) = abs(foo(x))'], 'foo(1)'),
+    ('call-arg-builtin', ['foo(x) = roundto(foo(x), 2)'], 'foo(1)'),
+    ('call-arg-builtin', ['foo(x) = justify(foo(x), 5)'], 'foo(1)'),
+    ('call-arg-builtin', ['foo(x) = to_int(quantity(foo(x)))'], 'foo(1)'),
+    ('call-arg-builtin', ['foo(x) = format_date(foo(x))'], 'foo(1)'),
+    ('call-arg-builtin', ['foo(x) = abs(bar(x))', 'bar(y) = abs(foo(y))'], 'foo(1)'),
+    ('any-all', ['foo(x) = any(foo(x))'], 'foo(1)'),
+    ('any-all', ['foo(x) = all(foo(x))'], 'foo(1)'),
+    ('call-arg-user', ['foo(x) = bar(foo(x))', 'bar(y) = y + 1'], 'foo(1)'),
+    ('call-arg-user', ['foo(x) = bar(1, foo(x))', 'bar(y, z) = y + 1'], 'foo(1)'),
+    ('call-arg-user', ['foo(x) = bar(bar(foo(x)))', 'bar(y) = y'], 'foo(1)'),
+    ('nested-self', ['foo(x) = foo(foo(x))'], 'foo(1)'),
+    ('nested-self', ['foo(x) = foo(x + foo(x))'], 'foo(1)'),
+]
+# recursion that ends: must evaluate
+RECURSION_CONTROLS = [(['twice(x) = x * 2'], 'twice(amount)'), (['twice(x) = x * 2', 'quad(x) = twice(twice(x))'], 'quad(amount)'),
+                      (['mag(x) = abs(x)'], 'mag(amount)')]
+# positions whose recursion goes through the arguments of a call: the dearest kind per level
+RECURSION_DEAR = {'call-arg-user', 'nested-self', 'call-arg-builtin', 'any-all'}
+
+
+def definition_recursion(ctx, res, binary=None, env=None, sanitizer=False):
+    j = '2021/01/01 p\n  A  $1\n  B\n'
+    limit = GUARDS.get('calc_depth_limit')
+    cases = []
+    for pos, defs, expr in RECURSION_SHAPES:
+        # every such definition must be reported ("Value expression recurses too deeply"); while the
+        # limit is 4096 the dear positions do not fit the default stack (F170), so no class is
+        # expected for them until the source has a limit of at most 2048
+        exp = 'error' if (limit is not None and (limit <= 2048 or pos not in RECURSION_DEAR)) else None
+        dj = ''.join('define %s\n' % d for d in defs) + j
+        for site in (['reg', '--amount', expr], ['bal', '--limit', '(%s) > 0' % expr], ['reg', '--format', '%%(%s)\\n' % expr],
+                     ['reg', '--display-total', expr]):
+            cases.append(Case('definition-recursion:' + pos, dj, site + NOW, info=dict(expect=exp, defs=defs)))
+        # the same definitions written inside the expression
+        inline = '; '.join(defs) + '; ' + expr
+        cases.append(Case('definition-recursion:' + pos, j, ['reg', '--amount', inline] + NOW, info=dict(expect=exp, defs=defs)))
+    for defs, expr in RECURSION_CONTROLS:
+        dj = ''.join('define %s\n' % d for d in defs) + j
+        cases.append(Case('definition', dj, ['reg', '--amount', expr] + NOW, info=dict(expect='ok')))
+    # option expressions that refer to each other: every nested evaluation starts again at depth 0
+    for a in (['--amount', 'total_expr', '--total', 'amount_expr'], ['--amount', 'total_expr + 1', '--total', 'amount_expr + 1'],
+              ['--display-amount', 'display_total', '--display-total', 'display_amount']):
+        cases.append(Case('option-expression-cycle', j, ['reg'] + a + NOW, info={}))
+    for a in (['--amount', 'amount_expr'], ['--total', 'total_expr'], ['--display-total', 'display_total * 2'], ['--amount', 'amount_expr + 1']):
+        cases.append(Case('option-expression-self', j, ['reg'] + a + NOW, info=dict(expect='ok')))
+    run_cases(ctx, cases, 'rec', binary, env)
+    # the same definitions on a stack eight times the default: there the limit is reached long before
+    # the stack is, whatever a level costs, so a crash means that the recursion is not bounded at all
+    # (a depth that is not handed on), not merely bounded too high for 8 MiB
+    if not sanitizer:
+        big = []
+        for pos, defs, expr in RECURSION_SHAPES:
+            dj = ''.join('define %s\n' % d for d in defs) + j
+            big.append(Case('definition-recursion-on-64MiB-stack:' + pos, dj, ['reg', '--amount', expr] + NOW,
+                            info=dict(expect='error' if limit is not None else None, defs=defs)))
+        run_cases(ctx, big, 'recbig', binary, lib.ledger_env({'C11_STACK_KB': str(DEFAULT_STACK_KB * 8)}))
+        cases += big
+    for c in cases:
+        res.evaluations += 1
+        res.count('recursion:' + c.construct.split(':')[-1])
+        add_violations(res, c, judge(c, sanitizer))
+        exp = c.info.get('expect')
+        if exp and not sanitizer:
+            res.traces += 1
+            res.nontrivial.add('rec:%s:%s' % (c.info.get('defs'), c.args[:2]))
+            got = obs_class(c)
+            if got != exp and got != 'timeout' and not got.startswith('signal'):
+                res.disagreements.append(dict(name='C11/directed:' + c.construct, case=dict(defs=c.info.get('defs'), args=c.args[:3]), impl=got, model=exp))
+            elif exp == 'error' and c.construct.startswith('definition-recursion') and got == 'error' \
+                    and b'recurses too deeply' not in c.result[2] and b'recursion_depth too deep' not in c.result[2]:
+                res.count('recursion:other-error')
+
+
 # ------------------------------------------------------------------------------ duplicate UUIDs
 
 def uuid_duplicates(ctx, res, binary=None, env=None, sanitizer=False):
@@ -1567,6 +1659,7 @@ def sanitizer_tier(ctx, res, sites):
         formats(ctx, sub, binary, env, sanitizer=True)
         aliases(ctx, sub, binary, env, sanitizer=True)
         uuid_duplicates(ctx, sub, binary, env, sanitizer=True)
+        definition_recursion(ctx, sub, binary, env, sanitizer=True)
         early_options(ctx, sub, binary, env, sanitizer=True)
         periods_s = lib.Result()
         nesting_light(ctx, sub, binary, env)
@@ -1624,7 +1717,7 @@ def run(ctx, light=False):
     phases = [('buffers', lambda: buffers(ctx, res, sites)), ('escapes', lambda: escapes(ctx, res)),
               ('nesting', lambda: nesting(ctx, res)), ('division', lambda: division(ctx, res)),
               ('periods', lambda: periods(ctx, res)), ('truncated', lambda: truncated(ctx, res)),
-              ('long_tokens', lambda: long_tokens(ctx, res)), ('formats', lambda: formats(ctx, res)), ('aliases', lambda: aliases(ctx, res)), ('uuid_duplicates', lambda: uuid_duplicates(ctx, res)), ('early_options', lambda: early_options(ctx, res)),
+              ('long_tokens', lambda: long_tokens(ctx, res)), ('formats', lambda: formats(ctx, res)), ('aliases', lambda: aliases(ctx, res)), ('uuid_duplicates', lambda: uuid_duplicates(ctx, res)), ('definition_recursion', lambda: definition_recursion(ctx, res)), ('early_options', lambda: early_options(ctx, res)),
               ('function_arguments', lambda: function_arguments(ctx, res)),
               ('mutation', lambda: mutation(ctx, res, ctx.scale(8000, 16000)))]
     if ctx.tier == 'thorough' and not light:
@@ -1651,6 +1744,7 @@ def search(ctx, broken):
         formats(ctx, r)
         aliases(ctx, r)
         uuid_duplicates(ctx, r)
+        definition_recursion(ctx, r)
         early_options(ctx, r)
         function_arguments(ctx, r)
         mutation(ctx, r, 6000, tag='srch')
